@@ -247,6 +247,35 @@ func TestVerifC12(t *testing.T) {
 			ccs = append(ccs, cc{ref.B32(P.X), ref.B32(new(big.Int).Add(P.Y, ref.SM2P)), "y+p"})
 		}
 	}
+	// x0 + p for on-curve x0 anywhere in [0, 2^256 - p): the encoding's top word is FFFFFFFE or FFFFFFFF
+	{
+		span := new(big.Int).Sub(b256, ref.SM2P)
+		found := 0
+		for tries := 0; found < hk.N(40, 400) && tries < 20000; tries++ {
+			x0 := new(big.Int).SetBytes(rng.Bytes(29))
+			switch tries % 6 {
+			case 1:
+				x0.Rsh(x0, uint(8*rng.Intn(24)))
+			case 2:
+				x0 = new(big.Int).Sub(span, new(big.Int).SetBytes(rng.Bytes(3)))
+			case 3:
+				x0 = new(big.Int).Add(new(big.Int).Lsh(bi(1), 96), new(big.Int).SetBytes(rng.Bytes(6)))
+			case 4:
+				x0 = new(big.Int).Add(new(big.Int).Lsh(bi(1), uint(64+rng.Intn(160))), new(big.Int).SetBytes(rng.Bytes(4)))
+			}
+			if x0.Sign() < 0 || x0.Cmp(span) >= 0 {
+				continue
+			}
+			P, ok := ref.LiftX(x0)
+			if !ok {
+				continue
+			}
+			found++
+			ccs = append(ccs, cc{ref.B32(P.X), ref.B32(P.Y), "x-below-2^256-p-on-curve"})
+			enc := ref.B32(new(big.Int).Add(P.X, ref.SM2P))
+			ccs = append(ccs, cc{enc, ref.B32(P.Y), fmt.Sprintf("x+p:topword=%02x%02x%02x%02x", enc[0], enc[1], enc[2], enc[3])})
+		}
+	}
 	for _, c := range ccs {
 		want := len(c.x) == 32 && len(c.y) == 32 && ref.OnCurve(ref.Int(c.x), ref.Int(c.y))
 		var got bool
